@@ -17,7 +17,8 @@ theorem joiner_once_per_step (c : Ctx) (k : Nat) (s : StepCode) (h : genStep c k
         | some j => JoinForm.call j
         | none =>
           if c.kind.isAsync then
-            JoinForm.call ((c.fcp.getD []) ++ [pj ':', pu ':', id' (if c.kind.isTry then "try_join" else "join"), pu '!'])
+            JoinForm.futJoin ((c.fcp.getD []) ++ [pj ':', pu ':', id' (if c.kind.isTry then "try_join" else "join"), pu '!'])
+              c.kind.isTry
           else JoinForm.tuple
        else if c.kind.isAsync then JoinForm.awaitCat else JoinForm.tuple) := by
   unfold genStep at h
